@@ -131,7 +131,11 @@ def run(ctx: Ctx, env):
             for other in g.rules:
                 if order[other.name] >= order[rn] or other.name in rns:
                     continue
-                wit = _shadow(sd, cx, rules[other.name], alpha)
+                wit = None
+                for vd, vlook in rules[other.name].variants:
+                    wit = _shadow(sd, cx, rx.Rule(vd, vlook, False, other.pattern), alpha)
+                    if wit is not None:
+                        break
                 key = f"{other.name}<{rn}|{kind}"
                 example = None
                 if wit is not None:
@@ -344,6 +348,9 @@ def _tail_branch_issue(pattern: str, flags, alpha) -> Optional[Tuple[str, str]]:
             yield from tail_branches(last[1][2], head)
 
     def dfa_of(items) -> rx.DFA:
+        items = list(items)
+        while items and items[-1][0] in (c.ASSERT, c.ASSERT_NOT, c.AT):
+            items.pop()
         b = rx.Builder(alpha)
         s, e = b.build(items)
         return rx.nfa_to_dfa(b.nfa, s, {e})
